@@ -376,7 +376,7 @@ fn scratch_root() -> PathBuf {
     base.join(format!("tv-c15-{}", std::process::id()))
 }
 
-struct Sut { db: Option<Database>, dir: PathBuf, seq: u64, loaded: Option<Table> }
+struct Sut { db: Option<Database>, dir: PathBuf, seq: u64, loaded: Option<Table>, emitted: Option<Table> }
 
 #[derive(Clone, Debug, PartialEq)]
 enum QOut { Rows(Vec<Vec<Val>>), Err(String), Panic(String), Bad(String) }
@@ -418,7 +418,7 @@ fn val_of(o: &OwnedValue) -> Option<Val> {
 }
 
 impl Sut {
-    fn new() -> Sut { Sut { db: None, dir: scratch_root(), seq: 0, loaded: None } }
+    fn new() -> Sut { Sut { db: None, dir: scratch_root(), seq: 0, loaded: None, emitted: None } }
     fn close(&mut self) { self.db = None; self.loaded = None; }
     fn cleanup(&mut self) { self.close(); let _ = std::fs::remove_dir_all(&self.dir); }
     /// fresh database holding exactly table `t`; checks that the stored rows read back identically
@@ -515,12 +515,35 @@ fn nontrivial(t: &Table, q: &Query) -> (bool, bool) {
     (true, work)
 }
 
+const SHARD: usize = 400;
+
+/// rows as 0-based positions of table rows whose projection on the output columns they are
+/// (first matching row; the encoding is decoded again and compared before it is used)
+fn as_indices(t: &Table, q: &Query, rows: &[Vec<Val>]) -> Option<Vec<usize>> {
+    let oc = q.out_cols(t.cols.len());
+    let projected: Vec<Vec<Val>> = t.rows.iter().map(|r| oc.iter().map(|c| r[*c].clone()).collect()).collect();
+    let mut idx = vec![];
+    for r in rows { idx.push(projected.iter().position(|p| p == r)?); }
+    let back: Vec<Vec<Val>> = idx.iter().map(|i| projected[*i].clone()).collect();
+    if back.as_slice() == rows { Some(idx) } else { None }
+}
+
 fn emit(w: &mut CaseWriter, sut: &mut Sut, t: &Table, q: &Query, stream: &str) {
     let ncols = t.cols.len();
     if !q.well_formed(ncols) { eprintln!("c15: skipped ill-formed query {}", q.line()); return; }
+    // the table is written once per run of consecutive cases on it (and again at the head of every shard)
+    let same = w.total % SHARD != 0 && sut.emitted.as_ref() == Some(t);
     let out = sut.observe(t, q);
     if let QOut::Bad(m) = &out { eprintln!("c15: unexpected result: {} on {}", m, replay_line(t, q)); }
-    let term = format!("Single {} {} {} {}", ncols, t.to_coq(), q.coq(), out.coq());
+    let out_term = match &out {
+        QOut::Rows(rows) => match as_indices(t, q, rows) {
+            Some(idx) => format!("(QIdx [{}])", idx.iter().map(|i| i.to_string()).collect::<Vec<_>>().join(";")),
+            None => { w.count("out:rows_written_out", 1); out.coq() }
+        },
+        _ => out.coq(),
+    };
+    let term = if same { format!("Same {} {}", q.coq(), out_term) } else { format!("Single {} {} {} {}", ncols, t.to_coq(), q.coq(), out_term) };
+    sut.emitted = Some(t.clone());
     let (defined, work) = nontrivial(t, q);
     let kind = format!("{}:{}", stream, shape_of(q));
     w.push(term, replay_line(t, q), defined && work, &kind);
@@ -572,9 +595,8 @@ fn gen_table_c15(rng: &mut Rng, flavour: u64) -> Table {
 }
 
 fn gen_kexpr(rng: &mut Rng, int_cols: &[usize], all_cols: usize, depth: usize, allow_neg: bool, any_col: bool) -> KExpr {
-    let pick_col = |rng: &mut Rng| -> usize {
-        if any_col || int_cols.is_empty() { 1 + rng.below((all_cols - 1) as u64) as usize } else { *rng.pick(int_cols) }
-    };
+    let _ = (all_cols, any_col);
+    let pick_col = |rng: &mut Rng| -> usize { if int_cols.is_empty() { 0 } else { *rng.pick(int_cols) } };
     if depth == 0 || rng.chance(1, 3) {
         return if rng.chance(2, 3) { KExpr::Col(pick_col(rng)) } else { KExpr::Int(rng.below(4) as i64) };
     }
@@ -755,7 +777,7 @@ fn structured(w: &mut CaseWriter, sut: &mut Sut, rng: &mut Rng, thorough: bool) 
 }
 
 fn gen(a: &Args) {
-    let mut w = CaseWriter::new(&a.out, "C15", "Corr.C15", 350);
+    let mut w = CaseWriter::new(&a.out, "C15", "Corr.C15", SHARD);
     let mut sut = Sut::new();
     if let Some(lines) = a.replay_lines() {
         for l in lines {
